@@ -46,13 +46,14 @@ def insertIv (iv : Nat × Nat) : List (Nat × Nat) → List (Nat × Nat)
   | [] => [iv]
   | x :: xs => if iv.1 ≤ x.1 then iv :: x :: xs else x :: insertIv iv xs
 
+/-- put an interval in front of a list of disjoint, non-adjacent, ascending intervals that start at or
+    after it, absorbing the ones it overlaps or touches -/
+def absorb (x : Nat × Nat) : List (Nat × Nat) → List (Nat × Nat)
+  | [] => [x]
+  | y :: r => if y.1 ≤ x.2 + 1 then absorb (x.1, max x.2 y.2) r else x :: y :: r
+
 /-- merge overlapping or adjacent intervals of a list sorted by lower bound -/
-def mergeIv : List (Nat × Nat) → List (Nat × Nat)
-  | [] => []
-  | [x] => [x]
-  | x :: y :: r =>
-    if y.1 ≤ x.2 + 1 then mergeIv ((x.1, max x.2 y.2) :: r) else x :: mergeIv (y :: r)
-termination_by l => l.length
+def mergeIv (l : List (Nat × Nat)) : List (Nat × Nat) := l.foldr absorb []
 
 def ofInterval (iv : Nat × Nat) : NumSet.Range :=
   if iv.1 = W then ⟨0, 0⟩ else if iv.2 = W then ⟨iv.1, 0⟩ else ⟨iv.1, iv.2⟩
